@@ -127,7 +127,7 @@ def correspond(iobs, mobs):
     if len(iobs.conns) != len(mobs.conns):
         return "different number of connections"
     traced = any(e == "RS" for _, evs in iobs.conns for e in evs)    # the tracer double is installed for single-connection cases only
-    def nospan(evs):
+    def nospan(evs, is_model):
         if traced:
             return evs
         # without command spans the calls of a map-iterating command cannot be delimited: sort each run of calls between replies
@@ -137,7 +137,7 @@ def correspond(iobs, mobs):
                 continue
             if e.startswith("C:"):
                 p = e.split(":", 5)
-                run.append(e if len(p) < 6 else "C:%s:%s:%s" % (p[1], p[2], p[5]))
+                run.append(e if is_model else "C:%s:%s:%s" % (p[1], p[2], p[5]))
             else:
                 out += sorted(run); run = []
                 out.append(e)
@@ -145,7 +145,7 @@ def correspond(iobs, mobs):
     for ci, ((ires, ievs), (mres, mevs)) in enumerate(zip(iobs.conns, mobs.conns)):
         if ires.split("(")[0] != mres.split("(")[0]:
             return "conn%d result impl=%s model=%s" % (ci, ires, mres)
-        a, b = align_pair(norm_events(nospan(ievs), False), norm_events(nospan(mevs), True))
+        a, b = align_pair(norm_events(nospan(ievs, False), not traced), norm_events(nospan(mevs, True), True))
         p = diff_pos(a, b)
         if p >= 0:
             return "conn%d event %d: impl=%s model=%s (impl tail %s | model tail %s)" % (
